@@ -81,14 +81,23 @@ def run_case(case):
         rec["why"] = "load:" + type(e).__name__
         _CACHE[case] = rec
         return rec
+    p = E["Processor"](E["log"], data)
+    rec = delete_record(p, path)
+    _CACHE[case] = rec
+    return rec
+
+
+def delete_record(p, path):
+    """Run the real delete_nodes(path) on the live Processor p; returns the
+    record the requests / observations / judge are made of."""
+    data = p.data
+    rec = {"kind": "skip", "why": None}
     try:
         before, enc = docenc.encode(data)
     except docenc.Unsupported:
         rec["why"] = "unsupported"
-        _CACHE[case] = rec
         return rec
     shadow = mutgen.Shadow(data)
-    p = E["Processor"](E["log"], data)
     state = {"top": None}
     orig = p._delete_nodes
 
@@ -103,9 +112,10 @@ def run_case(case):
             pass
     except Exception as e:  # noqa
         exc = e
+    finally:
+        del p._delete_nodes
     if state["top"] is None:
         rec["why"] = "read:" + (type(exc).__name__ if exc is not None else "nomatch")
-        _CACHE[case] = rec
         return rec
     coords = state["top"]
     after = docenc.canon_doc_text(docenc.encode(p.data)[0])
@@ -152,7 +162,6 @@ def run_case(case):
     expected = docenc.canon_doc_text(mutgen.ShadowEncoder(shadow, removed).node(data))
     rec.update(guard=guard, wf=wf, expected=expected, has_root=has_root, removed=removed,
                root_first=bool(order) and order[0].parent is None)
-    _CACHE[case] = rec
     return rec
 
 
@@ -201,7 +210,10 @@ def unlocated(rec):
 
 def judge(case, obs):
     """The property on the implementation's own observations (no model involved)."""
-    rec = run_case(case)
+    return judge_record(run_case(case))
+
+
+def judge_record(rec):
     if rec["kind"] == "skip":
         return None
     if unlocated(rec):
